@@ -102,7 +102,14 @@ def run_once(ctx, bvh, drv, args, tag):
         name = "does-not-terminate" if rc in (3, -999) else "crash"
         m = re.search(r"PLAN idx=(\d+)", plan_text)
         res["crashed_plan"] = int(m.group(1)) if m else None
-        for prop in crash_props(ctx, rc, err):
+        props = crash_props(ctx, rc, err)
+        ops_so_far = [l for l in plan_text.split("\n") if l.strip() and not l.startswith("PLAN ") and not l.startswith("#")]
+        last_op = ops_so_far[-1].split(" ", 1)[0] if ops_so_far else ""
+        if rc in (134, -6) and last_op not in ("reset", "drop", "limit", "write", "afree", "") and "C09" not in props:
+            # the process *aborted* inside a constructor / allocation method: fallible ones must return, infallible ones must
+            # panic (unwind) — C09 says "never abort" of both
+            props = props + ["C09"]
+        for prop in props:
             res["fails"].append({"prop": prop, "name": name, "detail": f"harness exit={rc} {crash_reason(err)}",
                                  "plan": None, "op": None, "trace": trace, "plan_text": plan_text})
     with open(trace, "rb") as fh:
@@ -231,7 +238,7 @@ def jobs_for(ctx, mult=1, seed_shift=0):
     return jobs
 
 
-def run(ctx, mult=1, seed_shift=0, corpus=True):
+def run(ctx, mult=1, seed_shift=0, corpus=True, release=False):
     bvh, err = common.build_harness(ctx)
     if bvh is None:
         return {"infra_error": "harness does not build against /repo: " + err[-800:], "oracle_fails": [], "diffs": []}
@@ -239,7 +246,8 @@ def run(ctx, mult=1, seed_shift=0, corpus=True):
     if drv is None:
         return {"infra_error": "driver does not build: " + err[-800:], "oracle_fails": [], "diffs": []}
     bins = [("dev", bvh)]
-    if ctx.tier == "thorough":
+    if ctx.tier == "thorough" or release:
+        # the crate's own debug assertions turn some wrong results into panics: the optimised build shows the result itself
         rel, err = common.build_harness(ctx, release=True)
         if rel:
             bins.append(("rel", rel))
@@ -327,9 +335,16 @@ def still_fails(ctx, bvh, plan_text, fail, tag="shrink"):
 def shrink(ctx, plan_text, fail):
     """greedy one-op-at-a-time removal (keeps the header and the constructor)"""
     bvh = os.path.join(common.harness_dir(), "target", "debug", "bvh")
+    rel = os.path.join(common.harness_dir(), "target", "release", "bvh")
     lines = [l for l in plan_text.split("\n") if l.strip()]
-    if len(lines) < 3 or not still_fails(ctx, bvh, plan_text, fail):
+    if len(lines) < 3:
         return plan_text, False
+    if not still_fails(ctx, bvh, plan_text, fail):
+        # found by the optimised build only (a debug assertion of the crate fires first in the other one)
+        if "trace_rel_" in fail.get("trace", "") and os.path.exists(rel) and still_fails(ctx, rel, plan_text, fail):
+            bvh = rel
+        else:
+            return plan_text, False
     header, ops = lines[0], lines[1:]
     budget = 150
     changed = True
@@ -370,7 +385,7 @@ def diff_context(ctx, d, run):
 def search(ctx, run, proof):
     """more seeds, same generator, looking for an oracle failure of this property"""
     for shift in range(1, 4):
-        r = globals()["run"](ctx, mult=4, seed_shift=shift, corpus=False)
+        r = globals()["run"](ctx, mult=4, seed_shift=shift, corpus=False, release=True)
         mine = [f for f in r.get("oracle_fails", []) if f["prop"] == ctx.prop and not common.match_known(ctx.prop, f)]
         if mine:
             f = dict(mine[0])
@@ -395,6 +410,15 @@ def replay(ctx, path):
         print(d["text"])
         bad = 1
     print(r["driver_tail"])
+    if not bad:
+        # the optimised build (no debug assertions in the crate)
+        rel, _ = common.build_harness(ctx, release=True)
+        if rel:
+            r = run_one(ctx, rel, drv, ["replay", path], "replay_rel")
+            for f in r["fails"]:
+                print(f"ORACLE(release build) {f['prop']} {f['name']} {f['detail']}")
+                if f["prop"] == ctx.prop:
+                    bad = 1
     if bad:
         print(f"VIOLATION property={ctx.prop} replay={path}")
     return bad
